@@ -15,8 +15,8 @@ equal to the transcription of the code for ALL histories: C06_lstack_partial).
 This file re-implements that machine and the reference LIFO in a few lines.
 
 The matcher is true for a case iff
-  1. the implementation is the LINKED stack (cfg word = 1, 3 or 5: impl 1 at
-     any of the three element types), the input is a
+  1. the implementation is the LINKED stack (cfg word = 1, 3, 5, 7, 9 or 11: impl 1
+     at any of the six element types; for 7, 9, 11 Search compares with go_eq), the input is a
      well-formed operation list, and
   2. the WHOLE observation (every operation, then the end-of-case Size / pop-all
      / Size, Pop, Size, Peek) is exactly what the defect machine produces — so
@@ -32,8 +32,25 @@ observation equals the Coq model's.)"""
 PUSH, POP, PEEK, SEARCH, SIZE = 1, 2, 3, 4, 5
 CAP = 4096
 
+# Element types whose == is not the identity of values (cfg 7, 9, 11: inst 3..5 of
+# harness/c05_nan.go): the integers are codes, Go's == on them is go_eq of
+# coq/theories/C05_ModelNaN.v, re-implemented here.
+C_NAN, C_NAN2, C_NZ, C_U1, C_U2, C_M1 = -999999999, -999999998, -999999997, -999999996, -999999995, -999999994
 
-def _observe(t, ops, defect):
+
+def _go_eq(a, b):
+    if a in (C_NAN, C_NAN2) or b in (C_NAN, C_NAN2):
+        return False
+    if a in (C_U1, C_U2, C_M1) or b in (C_U1, C_U2, C_M1):
+        return False
+    return (0 if a == C_NZ else a) == (0 if b == C_NZ else b)
+
+
+def _plain_eq(a, b):
+    return a == b
+
+
+def _observe(t, ops, defect, eq=_plain_eq):
     """observation of the reference LIFO (defect=False) or of the LIFO with the
     known defect (defect=True) started at [t]; top of the stack = end of the list"""
     stack = [t]
@@ -64,7 +81,7 @@ def _observe(t, ops, defect):
             else:
                 out.append(ghost if (defect and ghost is not None) else 0)
         elif op == SEARCH:
-            found = arg in stack or (defect and ghost is not None and arg == ghost)
+            found = any(eq(y, arg) for y in stack) or (defect and ghost is not None and eq(ghost, arg))
             out.append(1 if found else 0)
         elif op == SIZE:
             out.append(len(stack))
@@ -83,16 +100,17 @@ def _observe(t, ops, defect):
 
 
 def c06_lstack_pop(inp, obs):
-    if len(inp) < 2 or inp[0] not in (1, 3, 5):
+    if len(inp) < 2 or inp[0] not in (1, 3, 5, 7, 9, 11):
         return False                      # only the linked stack (cfg = impl + 2*inst, impl 1; any element type)
+    eq = _go_eq if inp[0] >= 6 else _plain_eq
     t = inp[1]
     rest = inp[2:]
     if len(rest) % 2:
         return False
     ops = [(rest[i], rest[i + 1]) for i in range(0, len(rest), 2)]
     try:
-        with_defect = _observe(t, ops, True)
-        lifo = _observe(t, ops, False)
+        with_defect = _observe(t, ops, True, eq)
+        lifo = _observe(t, ops, False, eq)
     except ValueError:
         return False                      # unknown operation code
     obs = list(obs)
